@@ -21,7 +21,7 @@ class C12(Check):
             "one message delivered or an ok exchange; distinct by hash.")
     partial = [
         "no mixing across requests, connections or recycled buffers under real concurrency is a RUNTIME OBSERVATION: "
-        "scripted UDP server with 300 queued datagrams x4, 8 concurrent scripted TCP connections x4, 8 concurrent "
+        "scripted UDP server with 300 queued datagrams x8, 8 concurrent scripted TCP connections x8, 8 concurrent "
         "clients x 25 requests against real UDP and TCP servers on 127.0.0.1, the decoded-request-does-not-alias-the-"
         "buffer test and the single-P buffer-recycling-order test; the Go scheduler and kernel sockets are outside the model",
         "handler_sees_own_request is proved for the transition system of Model/PoolLts.v (every interleaving, any number "
